@@ -33,7 +33,7 @@ ASSUMPTIONS = ["footprint of a structural op = the whole trees of its target and
 PROFILES = {
     "c11-copies": Profile("c11-copies", {
         "new_doc": 3, "new_sec": 10, "new_prop": 10, "create_section": 4, "create_property": 5,
-        "clone": 16, "clone_twice": 4, "linked_copy": 6, "export_leaf": 8, "template_clone": 5, "save": 4, "get_values": 8, "alias_mutate": 10, "hold_values": 4,
+        "clone": 16, "clone_twice": 4, "linked_copy": 6, "export_leaf": 8, "template_clone": 9, "save": 6, "get_values": 8, "alias_mutate": 10, "hold_values": 4,
         "set_values": 6, "v_item_mutate": 6, "v_append": 4, "v_extend": 3, "v_setitem": 4, "v_remove": 2, "set_dtype": 2,
         "rename": 5, "set_attr": 4, "append": 5, "insert": 2, "remove": 3, "set_parent": 3,
         "setitem": 2, "set_card": 4, "merge": 4, "set_link": 2, "clean": 1, "new_id": 1, "reseed": 2,
